@@ -281,6 +281,20 @@ func (e *SpecEnv) eval(x ast.Expr) Term {
 		return u.binop(nil, x.Op, a, b, nil, x, true)
 	case *ast.CallExpr:
 		return e.call(x)
+	case *ast.TypeAssertExpr:
+		// x.(*T) in a contract: view an interface value as its dynamic pointer type (no check)
+		a := e.eval(x.X)
+		if x.Type == nil {
+			return e.fail("bad type assertion in contract")
+		}
+		t := e.resolveType(x.Type)
+		if t == nil {
+			return e.fail("unknown type in type assertion")
+		}
+		if _, ok := t.Underlying().(*types.Pointer); !ok || u.c.sortOf(a.T) != "Int" {
+			return e.fail("contract type assertions are supported only from non-empty interfaces to pointer types")
+		}
+		return Term{S: a.S, T: t}
 	}
 	return e.fail("unsupported contract expression %T", x)
 }
@@ -442,8 +456,35 @@ func (e *SpecEnv) call(x *ast.CallExpr) Term {
 			u.declareReaderGhost()
 			return Term{S: fmt.Sprintf("(select (rd.content %s) %s)", a.S, u.toIdxSpec(i)), T: types.Typ[types.Uint8]}
 		case "held":
-			a := e.eval(x.Args[0])
-			return Term{S: e.u.heldTerm(e.curState(), a.S), Spec: "Int"}
+			sel, ok := ast.Unparen(x.Args[0]).(*ast.SelectorExpr)
+			if !ok {
+				return e.fail("held() needs a field selector like m.mu")
+			}
+			base := e.eval(sel.X)
+			name := "?"
+			if base.T != nil {
+				t := base.T
+				if p, ok := t.Underlying().(*types.Pointer); ok {
+					t = p.Elem()
+				}
+				if n, ok := t.(*types.Named); ok {
+					name = n.Obj().Name()
+				}
+			}
+			return Term{S: e.u.heldTerm(e.curState(), name+"."+sel.Sel.Name), Spec: "Int"}
+		}
+		if strings.HasPrefix(id.Name, "visited") && len(x.Args) == 1 {
+			var n int
+			if _, err := fmt.Sscanf(id.Name, "visited%d", &n); err == nil {
+				if v, ok := u.visitedVars[n]; ok {
+					cur, ok := e.curState().vars[v]
+					if !ok {
+						return e.fail("%s is not in scope here", id.Name)
+					}
+					k := e.eval(x.Args[0])
+					return Term{S: fmt.Sprintf("(select %s %s)", cur.S, k.S), T: types.Typ[types.Bool]}
+				}
+			}
 		}
 		if strings.HasPrefix(id.Name, "res") && len(id.Name) == 4 && id.Name[3] >= '0' && id.Name[3] <= '9' {
 			f := e.eval(x.Args[0])
